@@ -113,6 +113,8 @@ class SubSession:
                 srv.dispatcher.register_instance('sink', sink)
                 self.sinks[(name, p)] = sink
         self.fail = {}
+        self.during = None
+        self.during_res = 'none'
         self.strip_expires = False
         self.net.on_post = self._on_post
         self.subs = {}           # trace id -> ConsumerSubscription
@@ -138,6 +140,20 @@ class SubSession:
             # "no duration requested": the consumer API cannot express it, so the element is cut from the wire bytes
             import re
             wire.data = re.sub(rb'<(\w+:)?Expires>[^<]*</(\w+:)?Expires>', b'', wire.data)
+        if wire.src == 'provider' and self.during is not None:
+            ev, j = self.during
+            self.during = None          # the event happens once, while the first notification is on its way
+            if ev == 'Tick':
+                self.vt.now += TICK
+                self.during_res = 'ok'
+            else:
+                sub = self._subscription_for(j)
+                before = len(self.net.log)
+                try:
+                    sub.unsubscribe()
+                except Exception:  # noqa: BLE001
+                    pass
+                self.during_res = 'fault' if self._last_response_is_fault(before) else 'ok'
         if wire.src == 'provider':
             for name, port in CLIENT_PORT.items():
                 if wire.dst.endswith(f':{port}') and name in self.fail:
@@ -290,6 +306,26 @@ class SubSession:
             finally:
                 self.fail = {}
             return self._rec(rec, res='ok')
+        if act == 'ReportDuring':
+            ev = rec['ev']
+            if ev == 'Unsubscribe' and self.async_mgr:
+                ev = 'Tick'      # a request cannot be served from inside the event loop of the async manager
+            self.during, self.during_res = (ev, rec['j']), 'none'
+            self.tok += 1
+            m = self.pair.mdib
+            try:
+                if rec['a'] == 'metric':
+                    with m.metric_state_transaction() as mgr:
+                        apply_tok(mgr.get_state('numeric.ch0.vmd0'), self.tok)
+                else:
+                    with m.alert_state_transaction() as mgr:
+                        apply_tok(mgr.get_state('ac0.vmd0.mds0'), self.tok)
+            finally:
+                happened = self.during is None
+                self.during = None
+            out = self._rec(rec, res='ok', evres=self.during_res)
+            out['ev'] = ev if happened else 'none'
+            return out
         if act == 'Stop':
             for mgr in self.provider._subscriptions_managers.values():  # noqa: SLF001
                 mgr._run_housekeeping_thread = False  # noqa: SLF001
@@ -326,7 +362,7 @@ def check(run, replay_path=None):
     from sdc11073.provider.subscriptionmgr_base import SubscriptionBase
     cfg = 'Subscription_mc.cfg'
     res = run_tlc('SubscriptionMC', cfg if not run.quick else 'Subscription_mc_quick.cfg', timeout=3000, coverage=True)
-    run.add_tlc(res, ['Subscribe', 'Renew', 'GetStatus', 'Unsubscribe', 'Tick', 'Housekeeping', 'Stop'])
+    run.add_tlc(res, ['Subscribe', 'Renew', 'GetStatus', 'Unsubscribe', 'Tick', 'Housekeeping', 'Stop', 'ReportDuring'])
     num = run.pick(160, 3000)
     res = run_tlc('SubscriptionMC', 'Subscription_sim.cfg', workers=1, simulate=f'num={num}', depth=17, seed=run.seed)
     run.add_tlc(res)
@@ -361,7 +397,7 @@ def check(run, replay_path=None):
             ses.close()
     extra = {'maxdur': MAXDUR * 100, 'maxerrors': SubscriptionBase.MAX_NOTIFY_ERRORS}
     rejects = tracecheck.validate(run, 'SubscriptionTrace', 'SubscriptionTrace.cfg', traces, extra=extra, chunk=800)
-    for key in ('Report', 'Renew', 'GetStatus', 'Unsubscribe', 'Housekeeping', 'Stop', 'Tick', 'Subscribe'):
+    for key in ('Report', 'ReportDuring', 'Renew', 'GetStatus', 'Unsubscribe', 'Housekeeping', 'Stop', 'Tick', 'Subscribe'):
         run.count('steps_' + key, sum(1 for t in traces for r in t if r['act'] == key))
     run.count('notifications_delivered', sum(len(r['sent']) for t in traces for r in t))
     run.count('faults_observed', sum(1 for t in traces for r in t if r.get('res') == 'fault'))
